@@ -17,22 +17,23 @@ ALG = {'AES': 1, 'DES': 2, 'DES3': 3, 'Blowfish': 4, 'CAST': 5, 'ARC2': 6, 'ARC4
 SIG = {
     # ---- one-shot mode functions over the abstract block cipher `alg` keyed with `key` (length preserving) -----------
     # data is the WHOLE message; a call on a later segment yields the corresponding slice (position-indexed contracts)
-    'ecb_enc': {'sort': 'bytes', 'uf': True, 'facts': ['len(result) == len(data)']},
-    'ecb_dec': {'sort': 'bytes', 'uf': True, 'facts': ['len(result) == len(data)']},
-    'cbc_enc': {'sort': 'bytes', 'uf': True, 'facts': ['len(result) == len(data)']},
-    'cbc_dec': {'sort': 'bytes', 'uf': True, 'facts': ['len(result) == len(data)']},
-    'cfb_enc': {'sort': 'bytes', 'uf': True, 'facts': ['len(result) == len(data)']},
-    'cfb_dec': {'sort': 'bytes', 'uf': True, 'facts': ['len(result) == len(data)']},
+    'ecb_enc': {'sort': 'bytes', 'uf': True, 'facts': ['len(result) == len(data)', 'spec.modes.ecb_dec(alg, key, result) == data']},
+    'ecb_dec': {'sort': 'bytes', 'uf': True, 'facts': ['len(result) == len(data)', 'spec.modes.ecb_enc(alg, key, result) == data']},
+    'cbc_enc': {'sort': 'bytes', 'uf': True, 'facts': ['len(result) == len(data)', 'spec.modes.cbc_dec(alg, key, iv, result) == data']},
+    'cbc_dec': {'sort': 'bytes', 'uf': True, 'facts': ['len(result) == len(data)', 'spec.modes.cbc_enc(alg, key, iv, result) == data']},
+    'cfb_enc': {'sort': 'bytes', 'uf': True, 'facts': ['len(result) == len(data)', 'spec.modes.cfb_dec(alg, key, iv, seg, result) == data']},
+    'cfb_dec': {'sort': 'bytes', 'uf': True, 'facts': ['len(result) == len(data)', 'spec.modes.cfb_enc(alg, key, iv, seg, result) == data']},
     # OFB and CTR are xor with a key stream that does not depend on the data: the same function encrypts and decrypts and is
     # an involution
-    'ofb': {'sort': 'bytes', 'uf': True, 'facts': ['len(result) == len(data)']},
-    'ctr': {'sort': 'bytes', 'uf': True, 'facts': ['len(result) == len(data)']},
+    'ofb': {'sort': 'bytes', 'uf': True, 'facts': ['len(result) == len(data)', 'spec.modes.ofb(alg, key, iv, result) == data']},
+    'ctr': {'sort': 'bytes', 'uf': True, 'facts': ['len(result) == len(data)',
+                                                    'spec.modes.ctr(alg, key, icb, prefix_len, counter_len, little, result) == data']},
     # stream ciphers: data xor key stream of (alg, key, nonce) starting at byte position `pos`
-    'stream': {'sort': 'bytes', 'uf': True, 'facts': ['len(result) == len(data)']},
+    'stream': {'sort': 'bytes', 'uf': True, 'facts': ['len(result) == len(data)', 'spec.modes.stream(alg, key, nonce, pos, result) == data']},
     'hchacha20': {'sort': 'bytes', 'uf': True, 'facts': ['len(result) == 32']},
     'key_len_ok': 'bool', 'ctr_block': 'bytes', 'ctr_limit': 'int[nat]', 'odd_parity': 'int[nat]', 'des_parity': 'bytes',
     'tdes_key_ok': 'bool', 'chacha_blocks': 'int[nat]', 'cfb_segment_ok': 'bool', 'le_digits': 'bytes', 'be_digits': 'bytes',
-    'ctr_block_digits': 'bytes',
+    'ctr_block_digits': 'bytes', 'odd_parity_fold': 'int[nat]',
 }
 
 
@@ -161,6 +162,36 @@ def odd_parity(b):
     """FIPS 46-3: bits 7..1 of a key byte are key material, bit 0 is set so that the byte has an odd number of ones"""
     s = b // 2 % 2 + b // 4 % 2 + b // 8 % 2 + b // 16 % 2 + b // 32 % 2 + b // 64 % 2 + b // 128 % 2
     return b - b % 2 + (s + 1) % 2
+
+
+def odd_parity_fold(b):
+    """the same byte, bit by bit: parity bit = complement of the xor of the seven key bits (so that the xor of all eight bits is 1).
+    Equal to odd_parity for every byte: lemma_parity (contracts/cipher_factory.py, unit factory.DES3.parity_lemma)"""
+    p = 1
+    for i in range(1, 8):
+        p ^= (b >> i) & 1
+    return (b & 254) | p
+
+
+def lemma_parity(b):
+    """ghost function: its contract states odd_parity_fold(b) == odd_parity(b), bits 7..1 unchanged, odd number of ones"""
+    return odd_parity_fold(b)
+
+
+def des_parity(key):
+    """every byte of the key with its parity bit (bit 0) set for odd parity"""
+    return b''.join([i2osp(odd_parity_fold(x), 1) for x in key])
+
+
+def tdes_key_ok(key):
+    """SP 800-67 keying options 1 and 2: 24 bytes K1 || K2 || K3 or 16 bytes K1 || K2 (K3 = K1), with K1 != K2 and K2 != K3 as
+    DES keys, i.e. ignoring the parity bits (compared after parity adjustment); anything else degenerates to single DES"""
+    if len(key) != 16 and len(key) != 24:
+        return False
+    k = des_parity(key)
+    if len(key) == 16:
+        return k[:8] != k[8:16]
+    return k[:8] != k[8:16] and k[8:16] != k[16:24]
 
 
 def chacha_blocks(nonce_len):
